@@ -388,7 +388,10 @@ def mangle_file_for_iso9660(orig, iso_level):
         orig = orig.replace(';', '_')
     splitter = orig.split('.')
     if iso_level == 4:
-        if len(splitter) == 1:
+        # Without an extension there is nothing to split off.  That is also
+        # the case for a name that ends in a dot: the dot stays a part of the
+        # name, so that it is different from the name without it.
+        if len(splitter) == 1 or not splitter[-1]:
             return orig, valid_ext
 
         ext = splitter[-1]
